@@ -1,5 +1,9 @@
 mod ast;
+mod c19;
+mod c19b;
 mod common;
+mod desc;
+mod policy;
 mod terms;
 
 use common::*;
@@ -51,6 +55,7 @@ fn main() {
             }
             0
         }
+        "C19" => c19::run(tier),
         other => {
             eprintln!("unknown check {}", other);
             2
